@@ -2401,6 +2401,105 @@ Example ex_set_history :
 Proof. repeat split; vm_compute; reflexivity. Qed.
 
 (* ------------------------------------------------------------------ *)
+(** * InstantiateWithSizes on structs that mix declared-width and unsized members *)
+
+(* a member: (declared?, type).  A declared member keeps its concrete Info in
+   the template, an unsized one is the template of its kind *)
+Definition mtemplate (m : bool * ty) : info := if fst m then info_of (snd m) else template_of (snd m).
+Definition mresize (m : bool * ty) (sz : nat) : ty := if fst m then snd m else resize (snd m) sz.
+
+Definition declared_ok (t : ty) : Prop :=
+  match t with
+  | TyBool | TyInt _ | TyUint _ => True
+  | TyArray el _ => is_struct el = false
+  | _ => False
+  end.
+
+Definition member_ok_mixed (m : bool * ty) : Prop :=
+  if fst m then declared_ok (snd m) else leaf_template_ok (snd m).
+
+(* the frame statement: a concrete (declared-width) type is left exactly as it
+   is, whatever size is inferred for the value written for it *)
+Lemma instantiate_declared_frame t sz rest :
+  declared_ok t -> instantiate (info_of t) (sz :: rest) = Ok (info_of t).
+Proof.
+  destruct t as [| b | b | b | el n | el n | fs]; simpl declared_ok; intros H; try contradiction;
+    try reflexivity.
+  cbn [info_of instantiate].
+  replace (types_TArray =? types_TBool) with false by reflexivity.
+  replace ((types_TArray =? types_TInt) || (types_TArray =? types_TUint) || (types_TArray =? types_TFloat)) with false by reflexivity.
+  replace (types_TArray =? types_TStruct) with false by reflexivity.
+  replace (types_TArray =? types_TArray) with true by reflexivity.
+  rewrite (concrete_info_of el H). simpl negb. cbv iota.
+  replace (concrete_of (Info types_TArray (n * bits_of el) n (Some (info_of el)) [] true)) with true by reflexivity.
+  reflexivity.
+Qed.
+
+Lemma instantiate_member m sz rest :
+  member_ok_mixed m -> instantiate (mtemplate m) (sz :: rest) = Ok (info_of (mresize m sz)).
+Proof.
+  destruct m as [[|] t]; unfold member_ok_mixed, mtemplate, mresize; simpl fst; simpl snd; intros H.
+  - apply instantiate_declared_frame. exact H.
+  - apply instantiate_leaf. exact H.
+Qed.
+
+Fixpoint mresize_all (ms : list (bool * ty)) (szs : list nat) : list ty :=
+  match ms, szs with
+  | m :: ms', s :: szs' => mresize m s :: mresize_all ms' szs'
+  | _, _ => []
+  end.
+
+Lemma inst_fields_mixed : forall ms szs acc,
+  Forall member_ok_mixed ms -> (length ms <= length szs)%nat ->
+  inst_fields (fun f => instantiate f) (map mtemplate ms) szs acc
+  = Ok (map info_of (mresize_all ms szs), (acc + sum_bits (mresize_all ms szs))%nat).
+Proof.
+  induction ms as [|m ms IH]; intros szs acc HF Hl.
+  - simpl. rewrite Nat.add_0_r. reflexivity.
+  - inversion HF as [|? ? Hm HF']; subst. destruct szs as [|s szs]; [simpl in Hl; lia|].
+    cbn [map inst_fields mresize_all]. rewrite (instantiate_member m s szs Hm).
+    rewrite IH by (auto; simpl in Hl; lia). rewrite i_bits_info_of.
+    simpl sum_bits. rewrite Nat.add_assoc. reflexivity.
+Qed.
+
+(* Theorem (4), flat structs mixing declared-width members (bool, intN, uintN,
+   [n]T) with unsized ones (int, uint, []T), in every order: every declared
+   member is unchanged, every unsized member i takes size i, Bits is the sum *)
+Lemma instantiate_mixed_struct ms szs b0 a0 :
+  ms <> [] -> Forall member_ok_mixed ms -> (length ms <= length szs)%nat ->
+  instantiate (Info types_TStruct b0 a0 None (map mtemplate ms) false) szs
+  = Ok (Info types_TStruct (sum_bits (mresize_all ms szs)) a0 None
+             (map info_of (mresize_all ms szs)) true).
+Proof.
+  intros Hne HF Hl. destruct szs as [|s0 szs]; [destruct ms; [congruence | simpl in Hl; lia]|].
+  cbn [instantiate].
+  replace (types_TStruct =? types_TBool) with false by reflexivity.
+  replace ((types_TStruct =? types_TInt) || (types_TStruct =? types_TUint) || (types_TStruct =? types_TFloat)) with false by reflexivity.
+  replace (types_TStruct =? types_TStruct) with true by reflexivity.
+  rewrite (inst_fields_mixed ms (s0 :: szs) 0 HF Hl). reflexivity.
+Qed.
+
+Lemma mresize_all_declared : forall ms szs i t,
+  (length ms <= length szs)%nat -> nth_error ms i = Some (true, t) ->
+  nth_error (mresize_all ms szs) i = Some t.
+Proof.
+  induction ms as [|m ms IH]; intros szs i t Hl H; [destruct i; discriminate|].
+  destruct szs as [|s szs]; [simpl in Hl; lia|]. destruct i as [|i]; simpl in *.
+  - inversion H; subst. reflexivity.
+  - apply IH; [lia | exact H].
+Qed.
+
+(* the example of seeded defect C13-9: struct{a int32; k [4]byte; n uint} with the
+   sizes of 5, 0x0102, 100: a stays int32, k stays [4]uint8, n becomes uint7 *)
+Example ex_mixed_struct :
+  instantiate (Info types_TStruct 0 0 None
+                 (map mtemplate [(true, TyInt 32); (true, TyArray (TyUint 8) 4); (false, TyUint 0)]) false)
+              [3; 16; 7]%nat
+  = Ok (Info types_TStruct 71 0 None
+          (map info_of [TyInt 32; TyArray (TyUint 8) 4; TyUint 7]) true).
+Proof. vm_compute. reflexivity. Qed.
+
+(* ------------------------------------------------------------------ *)
 (** * The string constants of the model are the Go literals *)
 Module StrConst.
 Import String Ascii.
